@@ -58,6 +58,19 @@ fn run_op(m: &mut Machine, toks: &[&str]) -> String {
     }
     let name = toks[0];
     let args = &toks[1..];
+    // machinery self-test ops (tools/selftest_execpool.py): a process death and a hang must be attributed to the right program
+    match name {
+        "selftest_abort" => std::process::abort(),
+        "selftest_hang" => loop {
+            std::thread::sleep(std::time::Duration::from_millis(50));
+        },
+        "selftest_sleep" => {
+            let ms: u64 = args.get(0).and_then(|x| x.parse().ok()).unwrap_or(10);
+            std::thread::sleep(std::time::Duration::from_millis(ms));
+            return "-".to_string();
+        }
+        _ => {}
+    }
     let r = catch_unwind(AssertUnwindSafe(|| {
         if let Some(r) = ops_hash::dispatch(m, name, args) {
             return r;
@@ -93,6 +106,7 @@ fn main() {
     let mut out = std::io::BufWriter::with_capacity(1 << 16, stdout.lock());
     let mut line = String::new();
     let mut input = std::io::BufReader::with_capacity(1 << 16, stdin.lock());
+    let mut last_flush = std::time::Instant::now();
     loop {
         line.clear();
         let n = input.read_line(&mut line).unwrap_or(0);
@@ -131,9 +145,11 @@ fn main() {
         }
         resp.push('\n');
         let _ = out.write_all(resp.as_bytes());
-        // the driver sends FLUSH at the end of each batch; also flush when the reader would block
-        if input.buffer().is_empty() {
+        // the driver sends FLUSH at the end of each batch; also flush when the reader would block, and at least every 200 ms
+        // so that the driver's watchdog sees progress while slow programs are being executed
+        if input.buffer().is_empty() || last_flush.elapsed().as_millis() > 200 {
             let _ = out.flush();
+            last_flush = std::time::Instant::now();
         }
     }
     let _ = out.flush();
